@@ -2276,4 +2276,46 @@ theorem final_ok (ord) (m : Sys) (sp : SpecSt) (hR : Rel m sp) (hI : MInv m) (hL
   refine ⟨{ sp with got := m.got, psent := m.psent }, by simp [finalObs, specRun, specStep], ?_⟩
   exact final_core ord m _ ⟨hR.ep, hR.spay, hR.kill, hR.pre, hR.ord, hR.threw, hR.destroyed, hR.enqs, hR.live, hR.futs⟩ rfl rfl hI hL
 
+
+theorem init_inv (async : Bool) (rsz : Nat) (ppay : Bytes) : MInv (Sys.init async rsz ppay) := by
+  refine ⟨Nat.zero_le _, trivial, ⟨[], by simp [Sys.init, dataOf], fun _ => rfl⟩, rfl, (fun h => by cases h), rfl,
+    (fun h => by cases h), (fun _ _ h => by cases h), Nat.zero_le _, ?_, (fun h => by cases h), (fun h => by cases h),
+    (fun h => by cases h), (fun h => by cases h)⟩
+  show (0 : Nat) = 1 ↔ true = false
+  simp
+
+theorem init_rel (async : Bool) (rsz : Nat) (ppay : Bytes) :
+    Rel (Sys.init async rsz ppay) { ep := some { async := async, tls := false }, spay := ppay } :=
+  ⟨⟨_, rfl, rfl, rfl, rfl, rfl⟩, rfl, rfl, rfl, rfl, (fun h => by cases h), rfl, rfl, (fun _ _ h => by cases h), rfl⟩
+
+theorem init_live (async : Bool) (rsz : Nat) (ppay : Bytes) (history : List Op) :
+    Live (firstAfter history) (Sys.init async rsz ppay) history :=
+  ⟨rfl, (fun _ h => by cases h), (fun _ h => by cases h), (fun _ _ _ h => by cases h)⟩
+
+/-- **model_satisfies_spec.**  For every API level (`async`), every receive buffer size, every payload of the peer and
+every history of any length - any interleaving of peer sends, synchronous `Send` / `Receive` with any timeout and any
+scripted kernel answers (short writes, errors, time-outs, ready), asynchronous `Send` and driver steps with any
+`poll` result, one close / half close / reset of the peer at any point, with or without loss of unread data,
+destruction of the asynchronous socket - that satisfies the environment assumptions `histOk` (kernel sanity, K1,
+scenario played to its end), the predicate accepts every line of the model's trace and the end-of-case clauses hold. -/
+theorem model_satisfies_spec (async : Bool) (rsz : Nat) (ppay : Bytes) (history : List Op)
+    (h : histOk async rsz ppay history = true) :
+    ∃ s, specRun {} (modelTrace async rsz ppay history) = .ok s ∧ specFinal s = none := by
+  obtain ⟨sp1, hrun, hR, hI, hL⟩ := run_ok (firstAfter history) history (Sys.init async rsz ppay)
+    { ep := some { async := async, tls := false }, spay := ppay }
+    (init_rel async rsz ppay) (init_inv async rsz ppay) (init_live async rsz ppay history) h
+  obtain ⟨s, hs, hf⟩ := final_ok _ _ sp1 hR hI hL
+  refine ⟨s, ?_, hf⟩
+  have h0 : specRun {} (modelTrace async rsz ppay history)
+      = specRun { ep := some { async := async, tls := false }, spay := ppay }
+          ((modelOps (Sys.init async rsz ppay) history).2 ++ finalObs (modelOps (Sys.init async rsz ppay) history).1) := by
+    simp [modelTrace, specRun, specStep]
+  rw [h0, hrun, hs]
+
+/-- the check the driver performs (`specRun`, then `specFinal`) passes on every trace of the model -/
+theorem model_passes_check (async : Bool) (rsz : Nat) (ppay : Bytes) (history : List Op)
+    (h : histOk async rsz ppay history = true) : specCheck (modelTrace async rsz ppay history) = .ok () := by
+  obtain ⟨s, hs, hf⟩ := model_satisfies_spec async rsz ppay history h
+  simp [specCheck, hs, hf]
+
 end SockModel.PeerFail.Spec
